@@ -5,7 +5,8 @@
    walks inside {0..n-1}, None iff there is none; [dist_correct n L D]: that, for every ordered pair i <> j. *)
 From Coq Require Import QArith List Arith ZArith Lia.
 From BCT Require Import Base.Mat Base.ListX Model.Distance
-  Proofs.DistanceBase Proofs.DistanceFloyd Proofs.DistanceBin Proofs.DistanceOther Proofs.DistanceReach Proofs.DistanceWei.
+  Proofs.DistanceBase Proofs.DistanceFloyd Proofs.DistanceBin Proofs.DistanceOther Proofs.DistanceReach Proofs.DistanceWei
+  Proofs.DistanceFull Proofs.DistanceBFS Proofs.DistanceAgree.
 Import ListNotations.
 Open Scope Q_scope.
 
@@ -83,27 +84,96 @@ Theorem C03_distance_wei_diag_zero : forall n G D B, distance_wei n G = Some (D,
   forall i, (i < n)%nat -> D i i = Some 0 /\ B i i = 0%nat.
 Proof. exact distance_wei_diag_zero. Qed.
 
-(* ---------- breadthdist: soundness half + flag (model of the code after repo commit 4574619) ---------- *)
-(* full statement: DistanceOther.breadthdist_full_statement (NOT proved; tested). *)
-Theorem C03_breadthdist_partial : forall n C R D, breadthdist n C = Some (R, D) ->
-  forall i j d, (i < n)%nat -> (j < n)%nat -> D i j = Some d -> (1 <= d)%nat /\ hasw n C d i j.
-Proof. exact breadthdist_partial. Qed.
+(* ---------- totality: the fuel n+2 of every fuelled loop is sufficient, the models return for EVERY input ---------- *)
+Theorem C03_distance_bin_returns : forall n A, exists D, distance_bin n A = Some D.
+Proof. exact distance_bin_total. Qed.
+Theorem C03_distance_wei_returns : forall n G, exists DB, distance_wei n G = Some DB.
+Proof. exact distance_wei_total. Qed.
+Theorem C03_breadthdist_returns : forall n C, exists RD, breadthdist n C = Some RD.
+Proof. exact breadthdist_total. Qed.
+Theorem C03_reachdist_returns : forall n A, exists RD, reachdist n A = Some RD.
+Proof. exact reachdist_total. Qed.
+Theorem C03_efficiency_bin_returns : forall n A, exists e, efficiency_bin n A = Some e.
+Proof. exact efficiency_bin_total. Qed.
+Theorem C03_efficiency_wei_returns : forall n W, exists e, efficiency_wei n W = Some e.
+Proof. exact efficiency_wei_total. Qed.
+
+(* ---------- breadthdist: FULL correctness (model of the code after repo commit 4574619) ---------- *)
+(* [hasw n C e i j]: a walk with exactly e >= 1 edges along nonzero entries of C exists; [sd n C i j k]: one with k
+   edges exists and none with fewer.  For EVERY ordered pair, the diagonal included: D[i,j] is the exact minimum
+   number of edges of a walk i -> j, infinite exactly when there is none, and R[i,j] is true exactly when D[i,j] is
+   finite.  On the diagonal a walk i -> i with at least one edge is a cycle through i: D[i,i] is the length of
+   the shortest cycle through i (1 for a self-connection), infinite (and R[i,i] false) when there is none. *)
+Theorem C03_breadthdist_correct : forall n C R D, breadthdist n C = Some (R, D) ->
+  forall i j, (i < n)%nat -> (j < n)%nat ->
+    (forall d, D i j = Some d -> (1 <= d <= n)%nat) /\
+    (forall k, D i j = Some k <-> sd n C i j k) /\
+    (D i j = None <-> forall e, ~ hasw n C e i j) /\
+    (R i j = true <-> D i j <> None).
+Proof. exact breadthdist_correct. Qed.
+
+(* the same in the generic form of this file (minimum total length over all walks, every connection of length 1) *)
+Theorem C03_breadthdist_min_dist : forall n C R D, breadthdist n C = Some (R, D) ->
+  (forall i j, (i < n)%nat -> (j < n)%nat -> is_min_dist n (Lbin C) i j (olen_of_nat (D i j))) /\
+  (forall i j, (i < n)%nat -> (j < n)%nat -> (R i j = true <-> reachable n (Lbin C) i j)).
+Proof. exact breadthdist_dist_correct. Qed.
 
 Theorem C03_breadthdist_reach_flag : forall n C R D, breadthdist n C = Some (R, D) ->
   forall i j, R i j = true <-> D i j <> None.
 Proof. exact breadthdist_reach_flag. Qed.
 
-(* ---------- reachdist: every finite entry is the EXACT minimum hop count; flag soundness ---------- *)
-(* full statement: DistanceReach.reachdist_full_statement (NOT proved: infinite entry => unreachable).
-   [sd n A i j k]: a walk with k edges along nonzero entries of A exists and none with fewer edges. *)
-Theorem C03_reachdist_partial : forall n A R D, reachdist n A = Some (R, D) ->
-  forall i j d, (i < n)%nat -> (j < n)%nat -> D i j = Some d ->
-    exists k, d = Z.of_nat k /\ sd n A i j k /\ R i j = true.
-Proof. exact reachdist_partial. Qed.
+(* ---------- reachdist: FULL correctness, same statement (entries are integers 1..n or infinity) ---------- *)
+Theorem C03_reachdist_correct : forall n A R D, reachdist n A = Some (R, D) ->
+  forall i j, (i < n)%nat -> (j < n)%nat ->
+    (forall d, D i j = Some d -> exists k, d = Z.of_nat k /\ (1 <= k <= n)%nat) /\
+    (forall k, D i j = Some (Z.of_nat k) <-> sd n A i j k) /\
+    (D i j = None <-> forall e, ~ hasw n A e i j) /\
+    (R i j = true <-> D i j <> None).
+Proof. exact reachdist_correct. Qed.
 
-Theorem C03_reachdist_flag_partial : forall n A R D, reachdist n A = Some (R, D) ->
-  forall i j, (i < n)%nat -> (j < n)%nat -> R i j = true -> reachable n (Lbin A) i j.
-Proof. exact reachdist_flag_partial. Qed.
+Theorem C03_reachdist_min_dist : forall n A R D, reachdist n A = Some (R, D) ->
+  (forall i j, (i < n)%nat -> (j < n)%nat -> is_min_dist n (Lbin A) i j (zlen (D i j))) /\
+  (forall i j, (i < n)%nat -> (j < n)%nat -> (R i j = true <-> reachable n (Lbin A) i j)).
+Proof. exact reachdist_dist_correct. Qed.
+
+(* a shortest walk never repeats a node: at most n edges, at most n-1 between distinct nodes *)
+Theorem C03_shortest_walk_simple : forall n G i j e, (i < n)%nat -> sd n G i j e ->
+  (e <= n)%nat /\ ((j < n)%nat -> i <> j -> (S e <= n)%nat).
+Proof. intros n G i j e Hi H. split; [exact (sd_le_n n G i j e Hi H)|intros Hj Hne; exact (sd_lt_n n G i j e Hi Hj Hne H)]. Qed.
+
+(* ---------- the five routines agree wherever their domains overlap ---------- *)
+(* breadthdist and reachdist return the same two matrices, diagonal included *)
+Theorem C03_agree_breadth_reach : forall n A Rb Db Rr Dr,
+  breadthdist n A = Some (Rb, Db) -> reachdist n A = Some (Rr, Dr) ->
+  forall i j, (i < n)%nat -> (j < n)%nat -> Dr i j = option_map Z.of_nat (Db i j) /\ Rb i j = Rr i j.
+Proof. exact agree_breadth_reach. Qed.
+
+(* all five on one binary matrix ([Gbin A]: the same 0/1 matrix with rational entries, as distance_wei reads it):
+   off the diagonal each of them equals distance_bin — hence every pair agrees —, both reach flags are equal and
+   true exactly on the finite entries, and the edge-count outputs B and hops equal the distance *)
+Theorem C03_agree_binary_all : forall n A Dbin Rb Db Rr Dr Dw Bw,
+  distance_bin n A = Some Dbin -> breadthdist n A = Some (Rb, Db) -> reachdist n A = Some (Rr, Dr) ->
+  distance_wei n (Gbin A) = Some (Dw, Bw) ->
+  forall i j, (i < n)%nat -> (j < n)%nat -> i <> j ->
+    Db i j = Dbin i j /\
+    Dr i j = option_map Z.of_nat (Dbin i j) /\
+    oeq (Dw i j) (olen_of_nat (Dbin i j)) /\
+    oeq (spl (floyd n (Lbin A)) i j) (olen_of_nat (Dbin i j)) /\
+    Rb i j = Rr i j /\ (Rb i j = true <-> Dbin i j <> None) /\
+    (forall k, Dbin i j = Some k -> Bw i j = k /\ hops (floyd n (Lbin A)) i j = k).
+Proof. exact agree_binary_all. Qed.
+
+(* non-vacuity: directed 3-cycle 0->1->2->0 with a chord 0->2, a self-connection at 3 reached from 2, node 4
+   isolated: D[0,0] = 3 (shortest cycle), D[3,3] = 1, D[4,4] = D[0,4] = infinity; the two routines return the same *)
+Example C03_bfs_nonvacuous :
+  let A := [[0;1;1;0;0];[0;0;1;0;0];[1;0;0;1;0];[0;0;0;1;0];[0;0;0;0;0]]%Z in
+  (exists R, run_breadthdist A = Some (R,
+     [[Some 2; Some 1; Some 1; Some 2; None]; [Some 2; Some 3; Some 1; Some 2; None];
+      [Some 1; Some 2; Some 2; Some 1; None]; [None; None; None; Some 1; None]; [None; None; None; None; None]]%nat)) /\
+  (exists R, run_reachdist A = Some (R,
+     [[Some 2; Some 1; Some 1; Some 2; None]; [Some 2; Some 3; Some 1; Some 2; None];
+      [Some 1; Some 2; Some 2; Some 1; None]; [None; None; None; Some 1; None]; [None; None; None; None; None]]%Z)).
+Proof. split; eexists; vm_compute; reflexivity. Qed.
 
 (* ---------- means over the ordered pairs of distinct nodes ---------- *)
 Theorem C03_offdiag_pairs : forall n,
@@ -167,10 +237,20 @@ Print Assumptions C03_agree_any.
 Print Assumptions C03_distance_wei_correct.
 Print Assumptions C03_agree_wei_floyd.
 Print Assumptions C03_distance_wei_diag_zero.
-Print Assumptions C03_breadthdist_partial.
+Print Assumptions C03_distance_bin_returns.
+Print Assumptions C03_distance_wei_returns.
+Print Assumptions C03_breadthdist_returns.
+Print Assumptions C03_reachdist_returns.
+Print Assumptions C03_efficiency_bin_returns.
+Print Assumptions C03_efficiency_wei_returns.
+Print Assumptions C03_breadthdist_correct.
+Print Assumptions C03_breadthdist_min_dist.
 Print Assumptions C03_breadthdist_reach_flag.
-Print Assumptions C03_reachdist_partial.
-Print Assumptions C03_reachdist_flag_partial.
+Print Assumptions C03_reachdist_correct.
+Print Assumptions C03_reachdist_min_dist.
+Print Assumptions C03_shortest_walk_simple.
+Print Assumptions C03_agree_breadth_reach.
+Print Assumptions C03_agree_binary_all.
 Print Assumptions C03_offdiag_pairs.
 Print Assumptions C03_charpath_mean.
 Print Assumptions C03_charpath_mean_inverse.
